@@ -1,7 +1,9 @@
 package osutil
 
 import (
+	"errors"
 	"io"
+	"io/fs"
 	"os"
 )
 
@@ -18,6 +20,18 @@ func CopyFile(srcPath, destPath string) (int64, error) {
 		return 0, err
 	}
 	defer src.Close()
+
+	// os.Create truncates: if destPath names the source itself (same path, another
+	// spelling, a symbolic or hard link) the content would be lost before it is read.
+	if destInfo, err := os.Stat(destPath); err == nil {
+		if srcInfo, err := src.Stat(); err != nil {
+			return 0, err
+		} else if os.SameFile(srcInfo, destInfo) {
+			return 0, errors.New("osutil: CopyFile: " + srcPath + " and " + destPath + " are the same file")
+		}
+	} else if !errors.Is(err, fs.ErrNotExist) {
+		return 0, err
+	}
 
 	dest, err := os.Create(destPath)
 	if err != nil {
